@@ -16,8 +16,12 @@ pub enum FsAct {
 pub enum Op {
     /// Start a server process (the first entry of every script; after Kill or exit).
     Spawn,
-    /// The server process dies abruptly.
-    Kill,
+    /// The server process dies abruptly.  `torn`: how much of a write that is in flight
+    /// reaches the file ("0", "1", "half", "allbut1", "all"); None = seeded choice.
+    Kill {
+        #[serde(default)]
+        torn: Option<String>,
+    },
     /// The client sends a JSON-RPC message (after performing `pre` on the file system
     /// and adopting `set_settings` as its workspace configuration).
     Msg {
@@ -225,6 +229,12 @@ impl Client {
                     }
                 }
             }
+            "shutdown" => {
+                // the server clears the diagnostics of every open buffer and stops serving
+                for d in self.docs.iter_mut() {
+                    d.known_to_server = false;
+                }
+            }
             "workspace/executeCommand" => {
                 let id = json["id"].as_i64().unwrap_or(-1);
                 let cmd = params["command"].as_str().unwrap_or("");
@@ -260,6 +270,9 @@ impl Client {
 
     /// Apply the file-system side of a script entry.
     pub fn apply_fs(&mut self, pre: &[FsAct]) {
+        crate::seam::as_harness(|| self.apply_fs_inner(pre))
+    }
+    fn apply_fs_inner(&mut self, pre: &[FsAct]) {
         for a in pre {
             match a {
                 FsAct::Write { path, content } => {
